@@ -98,6 +98,9 @@ pub enum Twist {
     /// a step delegated to a sub-layout that delegates the same step to the same functionary, whose link
     /// directory `<step>.<keyid8>` is a symbolic link (to `.`, to the link directory's absolute path, to `../<dir>`, to itself, to nothing)
     SelfDelegationThroughSymlink(u8),
+    /// the first link file and the layout carry 33..300 further well-formed signature entries of unknown keys (junk
+    /// values), placed after or before the genuine one
+    ManySignatureEntries(u8),
 }
 
 const WEIRD_NAMES: &[&str] = &["[", "*", "?", "a[b", "]", "{a,b}", "ünï", "a b", "a/b", "../x", "", ".", "**", "[!", "\\", "a\nb", "\u{0}", "s.????????", "%s"];
@@ -386,6 +389,7 @@ fn twist_strategy() -> BoxedStrategy<Twist> {
         1 => Just(Twist::LayoutAsLink),
         1 => Just(Twist::LinkAsLayout),
         2 => any::<u8>().prop_map(Twist::SelfDelegationThroughSymlink),
+        2 => any::<u8>().prop_map(Twist::ManySignatureEntries),
     ]
     .boxed()
 }
@@ -440,7 +444,7 @@ impl Property for C14 {
         "Generated: (a) structured adversarial documents: valid worlds twisted with non-ASCII 64-byte key ids (2-, 3-, 4-byte characters, \
          char boundary at byte 8) in link and layout signatures, step names with glob metacharacters / path separators / control characters / \
          empty, non-normalised artifact paths (./x, a/../b, /abs, empty, ..) under MATCH/CREATE/.. rules, empty collections, thresholds and \
-         return values at and beyond u32/i32/u64, extra files in the link directory (garbage, deep nesting, other metadata type), a step delegated to a sub-layout that delegates the same step to the same functionary while its link directory is a symbolic link back to the link directory (., absolute, ../dir, itself, dangling), run through \
+         return values at and beyond u32/i32/u64, extra files in the link directory (garbage, deep nesting, other metadata type), 33-300 further signature entries of unknown keys on a link file and on the layout, a step delegated to a sub-layout that delegates the same step to the same functionary while its link directory is a symbolic link back to the link directory (., absolute, ../dir, itself, dangling), run through \
          in_toto_verify; run_command (what in_toto_run and inspections execute) on commands writing 0-1024 KiB to stderr and 0-256 KiB to stdout in either order, called in a process of its own: if that process does not finish, the check looks at what the processes are blocked on (library in a pipe read, command in a pipe write = cannot make progress) instead of trusting a time limit; adversarial paths/patterns/prefixes and artifacts with empty digest sets through rule application; (b) mutational: bit flips, truncations, dictionary \
          token insertion, range deletion/duplication, byte overwrite, splices over generated valid documents of every type and over the \
          repository's Python-made fixtures, OpenSSL-made SPKI/PKCS#8 files, PEM, hex, key ids and PAE encodings, offered to every parser, key \
@@ -708,6 +712,33 @@ impl Property for C14 {
                                     _ => "nowhere".to_string(),
                                 };
                                 let _ = std::os::unix::fs::symlink(target, &sub);
+                            }
+                        }
+                    }
+                    Twist::ManySignatureEntries(n) => {
+                        let count = [33usize, 34, 64, 65, 130, 300][*n as usize % 6];
+                        let extra: Vec<serde_json::Value> = (0..count).map(|i| serde_json::json!({"keyid": format!("{:064x}", (i as u128 + 1) * 0x9e3779b97f4a7c15u128), "sig": "00ff"})).collect();
+                        let splice = |text: &str, before: bool| -> Option<String> {
+                            let mut v: serde_json::Value = serde_json::from_str(text).ok()?;
+                            let sigs = v.get_mut("signatures")?.as_array_mut()?;
+                            if before {
+                                let mut all = extra.clone();
+                                all.extend(sigs.drain(..));
+                                *sigs = all;
+                            } else {
+                                sigs.extend(extra.clone());
+                            }
+                            Some(v.to_string())
+                        };
+                        if let Some(f) = w.links.first() {
+                            let path = dir.join(format!("{}.{}.link", f.step, prefix8(&f.filed_under)));
+                            if let Some(t) = std::fs::read_to_string(&path).ok().and_then(|t| splice(&t, n % 2 == 1)) {
+                                let _ = std::fs::write(&path, t);
+                            }
+                        }
+                        if n % 3 == 0 {
+                            if let Some(t) = splice(&info.layout_text, n % 2 == 0) {
+                                info.layout_text = t;
                             }
                         }
                     }
